@@ -24,18 +24,30 @@ pub const CAPS: &[usize] = &[
     256, 1024, 8191, 8192, 8193,
 ];
 
+/// `with_cap!(cap, B, mk => body)`: evaluates `body` with the type alias `B` bound to `Vec<u8>` or
+/// `ArrayBuf<N>` and `mk` bound to a function returning the matching `SmlReaderBuilder<B>`
 macro_rules! with_cap {
-    ($cap:expr, $f:ident ( $($args:expr),* )) => {
+    ($cap:expr, $B:ident, $mk:ident => $body:expr) => {
         match $cap {
-            None => $f::<Vec<u8>>($($args),*),
-            Some(n) => with_cap!(@arms n, $f ( $($args),* ),
+            None => {
+                type $B = Vec<u8>;
+                #[allow(unused_variables)]
+                let $mk: fn() -> sml_rs::SmlReaderBuilder<$B> = SmlReader::with_vec_buffer;
+                $body
+            }
+            Some(n) => with_cap!(@arms n, $B, $mk, $body,
                 0 1 2 3 4 5 6 7 8 9 10 11 12 13 14 15 16 17 18 19 20 21 22 23 24 25 26 27 28 29 30 31 32
                 33 34 35 36 37 38 39 40 41 42 43 44 45 46 47 48 64 96 128 256 1024 8191 8192 8193),
         }
     };
-    (@arms $n:expr, $f:ident ( $($args:expr),* ), $($k:literal)*) => {
+    (@arms $n:expr, $B:ident, $mk:ident, $body:expr, $($k:literal)*) => {
         match $n {
-            $( $k => $f::<ArrayBuf<$k>>($($args),*), )*
+            $( $k => {
+                type $B = ArrayBuf<$k>;
+                #[allow(unused_variables)]
+                let $mk: fn() -> sml_rs::SmlReaderBuilder<$B> = SmlReader::with_static_buffer::<$k>;
+                $body
+            } )*
             other => format!("unsupported-capacity:{}", other),
         }
     };
@@ -323,7 +335,7 @@ fn enc_generic<B: Buffer>(p: &[u8]) -> String {
 fn do_enc(args: &[&str]) -> Option<String> {
     let cap = parse_cap(args.first()?)?;
     let p = untok(args.get(1)?)?;
-    Some(with_cap!(cap, enc_generic(&p)))
+    Some(with_cap!(cap, B, mk => enc_generic::<B>(&p)))
 }
 
 fn do_enci(args: &[&str]) -> Option<String> {
@@ -410,7 +422,7 @@ fn dec_generic<B: Buffer>(ops: &[&str]) -> String {
 fn do_dec(args: &[&str]) -> Option<String> {
     let cap = parse_cap(args.first()?)?;
     let ops = &args[1..];
-    Some(with_cap!(cap, dec_generic(ops)))
+    Some(with_cap!(cap, B, mk => dec_generic::<B>(ops)))
 }
 
 fn show_item(r: &Result<Vec<u8>, DecodeErr>) -> String {
@@ -464,7 +476,7 @@ fn do_iter(args: &[&str]) -> Option<String> {
     let cap = parse_cap(args.first()?)?;
     let s = untok(args.get(1)?)?;
     let extra: usize = args.get(2)?.parse().ok()?;
-    Some(with_cap!(cap, iter_generic(&s, extra)))
+    Some(with_cap!(cap, B, mk => iter_generic::<B>(&s, extra)))
 }
 
 /// run the call script against an SmlReader; `calls` = (call, target) pairs
@@ -564,7 +576,7 @@ fn collect_events(p: Parser) -> String {
     v.join(";")
 }
 
-fn sml_generic<B: Buffer>(kind: &str, use_default: bool, evs: &[Ev], calls: &[(char, char)]) -> String {
+fn sml_generic<B: Buffer>(kind: &str, use_default: bool, mk: fn() -> sml_rs::SmlReaderBuilder<B>, evs: &[Ev], calls: &[(char, char)]) -> String {
     let bytes: Vec<u8> = evs
         .iter()
         .filter_map(|e| if let Ev::Byte(b) = e { Some(*b) } else { None })
@@ -575,17 +587,17 @@ fn sml_generic<B: Buffer>(kind: &str, use_default: bool, evs: &[Ev], calls: &[(c
             let a = if use_default {
                 run_sml_calls(SmlReader::from_slice(&bytes), calls)
             } else {
-                run_sml_calls(sml_builder::<B>().from_slice(&bytes), calls)
+                run_sml_calls(mk().from_slice(&bytes), calls)
             };
             let b = if use_default {
                 run_sml_calls(SmlReader::from_iterator(bytes.clone()), calls)
             } else {
-                run_sml_calls(sml_builder::<B>().from_iterator(bytes.clone()), calls)
+                run_sml_calls(mk().from_iterator(bytes.clone()), calls)
             };
             let c = if use_default {
                 run_sml_calls(SmlReader::from_iterator(&bytes), calls)
             } else {
-                run_sml_calls(sml_builder::<B>().from_iterator(&bytes), calls)
+                run_sml_calls(mk().from_iterator(&bytes), calls)
             };
             if a != b || a != c {
                 format!("MISMATCH slice=[{}] iter=[{}] iterref=[{}]", a, b, c)
@@ -598,7 +610,7 @@ fn sml_generic<B: Buffer>(kind: &str, use_default: bool, evs: &[Ev], calls: &[(c
             if use_default {
                 run_sml_calls(SmlReader::from_reader(p), calls)
             } else {
-                run_sml_calls(sml_builder::<B>().from_reader(p), calls)
+                run_sml_calls(mk().from_reader(p), calls)
             }
         }
         "eh" => {
@@ -606,31 +618,10 @@ fn sml_generic<B: Buffer>(kind: &str, use_default: bool, evs: &[Ev], calls: &[(c
             if use_default {
                 run_sml_calls(SmlReader::from_eh_reader(p), calls)
             } else {
-                run_sml_calls(sml_builder::<B>().from_eh_reader(p), calls)
+                run_sml_calls(mk().from_eh_reader(p), calls)
             }
         }
         _ => "bad-request".to_string(),
-    }
-}
-
-/// a builder for an arbitrary buffer type: `with_vec_buffer` and `with_static_buffer::<N>` both
-/// return `SmlReaderBuilder<Buf>`; obtain one generically via the vec builder's type parameter
-fn sml_builder<B: Buffer>() -> sml_rs::SmlReaderBuilder<B> {
-    BuilderOf::<B>::get()
-}
-
-trait MkBuilder<B: Buffer> {
-    fn get() -> sml_rs::SmlReaderBuilder<B>;
-}
-struct BuilderOf<B>(core::marker::PhantomData<B>);
-impl MkBuilder<Vec<u8>> for BuilderOf<Vec<u8>> {
-    fn get() -> sml_rs::SmlReaderBuilder<Vec<u8>> {
-        SmlReader::with_vec_buffer()
-    }
-}
-impl<const N: usize> MkBuilder<ArrayBuf<N>> for BuilderOf<ArrayBuf<N>> {
-    fn get() -> sml_rs::SmlReaderBuilder<ArrayBuf<N>> {
-        SmlReader::with_static_buffer::<N>()
     }
 }
 
@@ -650,7 +641,7 @@ fn do_sml(args: &[&str], all_bytes: bool) -> Option<String> {
     let evs = parse_events(&args[3..])?;
     let out = match cap {
         // capacity 8192 = the default reader buffer: use the default constructors
-        Some(8192) => sml_generic::<ArrayBuf<8192>>(kind, true, &evs, &calls),
+        Some(8192) => sml_generic::<ArrayBuf<8192>>(kind, true, SmlReader::with_static_buffer::<8192>, &evs, &calls),
         cap => with_cap_sml(cap, kind, &evs, &calls),
     };
     if all_bytes {
@@ -667,13 +658,7 @@ fn do_sml(args: &[&str], all_bytes: bool) -> Option<String> {
 }
 
 fn with_cap_sml(cap: Option<usize>, kind: &str, evs: &[Ev], calls: &[(char, char)]) -> String {
-    fn g<B: Buffer>(kind: &str, evs: &[Ev], calls: &[(char, char)]) -> String
-    where
-        BuilderOf<B>: MkBuilder<B>,
-    {
-        sml_generic::<B>(kind, false, evs, calls)
-    }
-    with_cap!(cap, g(kind, evs, calls))
+    with_cap!(cap, B, mk => sml_generic::<B>(kind, false, mk, evs, calls))
 }
 
 fn abuf_generic<const N: usize>(ops: &[&str]) -> String {
